@@ -153,3 +153,27 @@ impl Obs {
 pub fn set_of(range: std::ops::RangeInclusive<u64>) -> BTreeSet<u64> {
     range.collect()
 }
+
+/// A `tracing` subscriber that enables every callsite and discards every event: with it
+/// installed the arguments of the `debug!`/`trace!` lines of the code under test are
+/// evaluated exactly as they are under `RUST_LOG=trace` (arithmetic inside a log line is
+/// code that can panic too), without producing output.
+struct EvaluateAndDiscard;
+
+impl tracing::Subscriber for EvaluateAndDiscard {
+    fn enabled(&self, _: &tracing::Metadata<'_>) -> bool {
+        true
+    }
+    fn new_span(&self, _: &tracing::span::Attributes<'_>) -> tracing::span::Id {
+        tracing::span::Id::from_u64(1)
+    }
+    fn record(&self, _: &tracing::span::Id, _: &tracing::span::Record<'_>) {}
+    fn record_follows_from(&self, _: &tracing::span::Id, _: &tracing::span::Id) {}
+    fn event(&self, _: &tracing::Event<'_>) {}
+    fn enter(&self, _: &tracing::span::Id) {}
+    fn exit(&self, _: &tracing::span::Id) {}
+}
+
+pub fn evaluate_log_arguments() {
+    let _ = tracing::subscriber::set_global_default(EvaluateAndDiscard);
+}
